@@ -139,7 +139,9 @@ fn main() {
             let rec_canon: Vec<PathBuf> = recorded.iter().filter_map(|p| p.canonicalize().ok()).collect();
             let input_c = input.canonicalize().unwrap();
             // only markers the scanner can see as such: at a line start, not swallowed by an earlier unterminated quote — true for every line of a well-formed text
-            if well_formed_only || with_lnk {
+            // (a generated line with an unbalanced quote swallows the lines after it: no preprocessor writes such text, and what the markers behind it mean is not defined)
+            let balanced = lines.iter().all(|l| l.bytes.iter().filter(|b| **b == b'"').count() % 2 == 0);
+            if (well_formed_only || with_lnk) && balanced {
                 for l in &lines {
                     if let Some((raw, system)) = &l.marker {
                         n_markers += 1;
